@@ -119,6 +119,9 @@ def tie(tier, seed, replay):
                     if final[name][1] != sg[name][1]:
                         why = "after resuming with run(): %s differs from the fixed point of an uninterrupted run" % name
                         break
+                    if final[name][0] != len(final[name][1]) and len(set(inp_facts[name])) == len(inp_facts[name]):
+                        why = "after resuming with run(): %s has %d rows for %d distinct tuples (a tuple was appended again on resume)" % (name, final[name][0], len(final[name][1]))
+                        break
             distinct.add((c["id"], tuple(ks)))
             if why:
                 mism.append(dict(case=cs, impl=[prog.canon_snap(s) if "__ret" not in s else s for s in snaps], model=None, spec=sg, kind="impl_violates_spec", known=None, what=why))
